@@ -1022,16 +1022,15 @@ func (ts *Service) handleUpdateTask(w http.ResponseWriter, r *http.Request) {
 
 	// Move the template association only once the request is valid and the definition is stored,
 	// so that a rejected request leaves the associations as they were.
+	// A failure here is reported at the end: the definition is stored already, so the running state
+	// below must still be brought in line with it.
+	var assocErr error
 	if updated.TemplateID != "" && (original.ID != updated.ID || original.TemplateID != updated.TemplateID) {
 		if original.TemplateID != "" {
-			if err := ts.templates.DisassociateTask(original.TemplateID, original.ID); err != nil {
-				httpd.HttpError(w, fmt.Sprintf("failed to disassociate task with template: %s", err), true, http.StatusInternalServerError)
-				return
-			}
+			assocErr = ts.templates.DisassociateTask(original.TemplateID, original.ID)
 		}
-		if err := ts.templates.AssociateTask(updated.TemplateID, updated.ID); err != nil {
-			httpd.HttpError(w, fmt.Sprintf("failed to associate task with template: %s", err), true, http.StatusInternalServerError)
-			return
+		if assocErr == nil {
+			assocErr = ts.templates.AssociateTask(updated.TemplateID, updated.ID)
 		}
 	}
 
@@ -1058,6 +1057,11 @@ func (ts *Service) handleUpdateTask(w http.ResponseWriter, r *http.Request) {
 			vars.NumEnabledTasksVar.Add(-1)
 			ts.stopTask(original.ID)
 		}
+	}
+
+	if assocErr != nil {
+		httpd.HttpError(w, fmt.Sprintf("failed to move the task's template association: %s", assocErr), true, http.StatusInternalServerError)
+		return
 	}
 
 	t, err := ts.convertTask(updated, "formatted", "attributes", ts.TaskMasterLookup.Main())
